@@ -1038,11 +1038,9 @@ impl Entry {
         };
 
         let new_root = SyntaxNode::new_root_mut(
-            self.0.replace_with(
-                self.0
-                    .green()
-                    .splice_children(position..position, new_children),
-            ),
+            self.0
+                .green()
+                .splice_children(position..position, new_children),
         );
 
         if let Some(parent) = self.0.parent() {
